@@ -148,6 +148,40 @@ Definition ep_read_post {A} (i : inp) (fn0 : Z) (content : A) : outcome A :=
 Definition ep_read_post_template {A} (i : inp) (content : A) : outcome A :=
   guarded i (Data content).
 
+(* ------------------------------------------------------------------ article entry points on any board content *)
+(* What the board holds when the entry point is called. The counters of the shared segment are part of it:
+   Total is (re)loaded from .DIR by every reader that finds it 0 (GetBTotalWithRetry), NBottom is read as it is
+   (GetBottomTotal) — 0 on a board without pinned articles and on a segment that has not loaded it yet. *)
+Record content := mk_content {
+  c_recs : list Z;          (* the records of .DIR (article index) *)
+  c_idx : Z;                (* what the cursor search answers on a non-empty index *)
+  c_pinned : list Z;        (* the records of .DIR.bottom (pinned articles) *)
+  c_body : option Z;        (* the article file asked for: its content, None when there is no such file *)
+  c_template : option Z;    (* the post template asked for *)
+  c_loaded : bool           (* NBottom of the segment has been loaded from .DIR.bottom *)
+}.
+Definition c_total (c : content) : Z := Z.of_nat (length (c_recs c)).
+Definition c_nbottom (c : content) : Z := if c_loaded c then Z.of_nat (length (c_pinned c)) else 0.
+(* readContent: os.Stat fails on a missing file *)
+Definition file_outcome (f : option Z) : outcome Z :=
+  match f with Some x => Data x | None => OtherErr 3 end.
+
+Definition epc_is_board_valid_user (i : inp) (c : content) : outcome bool := ep_is_board_valid_user i.
+Definition epc_load_general_articles (i : inp) (c : content) : outcome (list Z) :=
+  ep_load_general_articles i (c_total c) (c_recs c).
+Definition epc_load_bottom_articles (i : inp) (c : content) : outcome (list Z) :=
+  ep_load_bottom_articles i (c_nbottom c) (c_pinned c).
+Definition epc_find_article_start_idx (i : inp) (c : content) : outcome Z :=
+  ep_find_article_start_idx i (c_total c) (c_idx c).
+Definition epc_read_post (i : inp) (fn0 : Z) (c : content) : outcome Z :=
+  if (fn0 =? 76) || (fn0 =? 0) then OtherErr 1 else guarded i (file_outcome (c_body c)).
+Definition epc_read_post_template (i : inp) (c : content) : outcome Z :=
+  guarded i (file_outcome (c_template c)).
+
+(* "refused" is read from the error value alone (ErrNotPermitted), never from the payload *)
+Definition refused {A} (o : outcome A) : bool :=
+  match o with NotPermitted => true | _ => false end.
+
 (* ------------------------------------------------------------------ listings *)
 Record board := mk_board {
   b_bid : Z;
@@ -205,6 +239,10 @@ Definition load_boards_by_bids (u : user) (bs : list board) : list summary :=
 (* loadHotBoardStat *)
 Definition load_hot_boards (u : user) (bs : list board) : list summary :=
   map (summarize false u) (filter (fun b => b_named b && negb (is_group b) && visible u b) bs).
+(* LoadClassBoards: loadClassBoardStat (children that are themselves classes / links) + showBoardList(true).
+   Only the class without children is exercised by the harness (op 6); it is not among the property's observation points *)
+Definition load_class_boards (u : user) (children : list board) : list summary :=
+  map (summarize true u) (filter (fun b => b_named b && is_group b && visible u b) children).
 (* LoadBoardSummary: always answers; parseBoardSummary masks *)
 Definition load_board_summary (u : user) (b : board) : summary :=
   summarize (negb (Z.land (b_attr b) BRD_GROUPBOARD =? 0)) u b.
@@ -270,11 +308,49 @@ Definition run_helper (ulevel : Z) (o18 inbm fr nbm : bool) (battr blevel : Z) :
   let i := abs ulevel o18 inbm fr nbm battr blevel in
   [ST_OK; code_valid (ep_is_board_valid_user i); code_outcome (ep_load_same_create_time 2 [1; 2])].
 
+(* op 5: [5; content bits] user board: the ten article entry points on a board whose content is
+   bit 0 article index (two records), bit 1 pinned index (one record), bit 2 the article file, bit 3 the post
+   template, bit 4 NBottom loaded. Each entry point answers two numbers: the class of the error value
+   (0 not permitted, 1 nil, 10 + c other) and the size of the payload. *)
+Definition content_of_bits (cb : Z) : content :=
+  mk_content (if Z.testbit cb 0 then [1; 2] else []) 1 (if Z.testbit cb 1 then [1] else [])
+             (if Z.testbit cb 2 then Some 196 else None) (if Z.testbit cb 3 then Some 196 else None) (Z.testbit cb 4).
+Definition code2_list (o : outcome (list Z)) : list Z :=
+  match o with Data l => [1; Z.of_nat (length l)] | NotPermitted => [0; 0] | OtherErr c => [10 + c; 0] end.
+Definition code2_z (o : outcome Z) : list Z :=
+  match o with Data x => [1; x] | NotPermitted => [0; 0] | OtherErr c => [10 + c; 0] end.
+Definition code2_valid (o : outcome bool) : list Z :=
+  match o with Data b => [1; zb b] | NotPermitted => [0; 0] | OtherErr c => [10 + c; 0] end.
+Definition run_content (cb ulevel : Z) (o18 inbm fr nbm : bool) (battr blevel : Z) : list Z :=
+  let i := abs ulevel o18 inbm fr nbm battr blevel in
+  let c := content_of_bits cb in
+  [ST_OK]
+  ++ code2_valid (epc_is_board_valid_user i c) ++ code2_list (epc_load_general_articles i c)
+  ++ code2_list (epc_load_bottom_articles i c) ++ code2_z (epc_find_article_start_idx i c)
+  ++ code2_z (epc_read_post i 77 c) ++ code2_z (epc_read_post_template i c)
+  (* the bbs wrappers *)
+  ++ code2_valid (epc_is_board_valid_user i c) ++ code2_list (epc_load_general_articles i c)
+  ++ code2_list (epc_load_bottom_articles i c) ++ code2_z (epc_read_post i 77 c).
+
+(* op 6: [6; variant] user board: the four listings where the surrounding list is degenerate.
+   variant 0: nothing to list (no hot board, no board number asked for, keyword / prefix no board carries);
+   variant 1: the board of the row is the only candidate. Each listing answers (code, attr, length); last the class
+   listing of a class without children. *)
+Definition code3_listing (l : list summary) : list Z := code_listing l ++ [Z.of_nat (length l)].
+Definition run_listing (variant ulevel : Z) (o18 inbm fr nbm : bool) (battr blevel : Z) : list Z :=
+  let u := mk_user ulevel o18 in
+  let bs := if variant =? 0 then [] else [mk_board 10 true battr blevel inbm fr nbm true] in
+  [ST_OK] ++ code3_listing (load_general_boards u bs) ++ code3_listing (load_autocomplete_boards u bs)
+  ++ code3_listing (load_boards_by_bids u bs) ++ code3_listing (load_hot_boards u bs)
+  ++ code3_listing (load_class_boards u []).
+
 Definition run_case (args : list (list Z)) : list Z :=
   match args with
   | [[1]; [ulevel; o18; inbm; fr; nbm]; [battr; blevel]] => run_row ulevel (bz o18) (bz inbm) (bz fr) (bz nbm) battr blevel
   | [[3]; [ulevel; o18; inbm; fr; nbm]; [battr; blevel]] => run_pair ulevel (bz o18) (bz inbm) (bz fr) (bz nbm) battr blevel
   | [[4]; [ulevel; o18; inbm; fr; nbm]; [battr; blevel]] => run_helper ulevel (bz o18) (bz inbm) (bz fr) (bz nbm) battr blevel
+  | [[5; cb]; [ulevel; o18; inbm; fr; nbm]; [battr; blevel]] => run_content cb ulevel (bz o18) (bz inbm) (bz fr) (bz nbm) battr blevel
+  | [[6; v]; [ulevel; o18; inbm; fr; nbm]; [battr; blevel]] => run_listing v ulevel (bz o18) (bz inbm) (bz fr) (bz nbm) battr blevel
   (* op 2: the abstract row of the numbers, then the specification's verdicts may_read, may_list *)
   | [[2]; [ulevel; o18; inbm; fr; nbm]; [battr; blevel]] =>
       let i := abs ulevel (bz o18) (bz inbm) (bz fr) (bz nbm) battr blevel in
